@@ -32,7 +32,9 @@ fn content(rng: &mut Rng, rows: usize, gen: u64) -> Table {
         out.push(vec![
             Cell::Int(i as i64),
             if rng.chance(1, 10) { Cell::Null } else { Cell::Int(rng.range(0, 1000) + (gen as i64) * 10_000) },
-            if rng.chance(1, 12) { Cell::Null } else { Cell::S(format!("{}{}", rng.pick(&words), gen % 3)) },
+            // odd generations hold (nearly) unique strings: a rewrite then also changes
+            // which columns a sidecar stores dictionary-encoded
+            if rng.chance(1, 12) { Cell::Null } else if gen % 2 == 1 { Cell::S(format!("u{}-{}", i, rng.below(1 << 30))) } else { Cell::S(format!("{}{}", rng.pick(&words), gen % 3)) },
         ]);
     }
     Table { name: "t".into(), cols, rows: out }
